@@ -96,7 +96,9 @@ def _worker_chunk(args):
 
 def merge_stats(total, st):
     for k, v in st.items():
-        if isinstance(v, (int, float)):
+        if isinstance(v, (int, float)) and str(k).startswith("max_"):
+            total[k] = max(total.get(k, v), v)
+        elif isinstance(v, (int, float)):
             total[k] = total.get(k, 0) + v
         elif isinstance(v, (list, set, tuple)):
             total.setdefault(k, set()).update(v)
@@ -144,6 +146,18 @@ def replay_file(path, libs=None, timeout=60.0):
     pid = doc["property"]
     prof = profile(pid)
     case = doc["case"]
+    if case.get("global"):
+        # a pooled statistic: re-run the same index range and re-evaluate the pooled oracle
+        if libs is None:
+            libs = {"plain": build.build("plain")}
+        lo, hi = case["indices"]
+        recs = run_pool(pid, case["tier"], case["seed"], list(range(lo, hi)), libs, prof.timeout(case["tier"]))
+        total = {}
+        for r in recs:
+            merge_stats(total, r["stats"])
+        gv, info = prof.global_check(total)
+        same = [v for v in gv if v["oracle"] == doc["violation"].get("oracle")]
+        return bool(same), gv, [json.dumps(info, sort_keys=True)], doc
     if libs is None:
         libs = {k: build.build(k) for k in ({"plain", case.get("build", "plain")})}
     viol, stats, results = evaluate(prof, case, libs, timeout)
